@@ -17,7 +17,7 @@ EXPLANATION = (
     'recursive results.  For classes of this shape these facts are the whole value algebra (equality is an '
     'equivalence, equal values hash equally, ^ is coarser than ==, erasure is idempotent).'
     ' The names to erase must reach every atom as a re-iterable collection (not a map / filter / generator) when clear_features forwards to per-class methods.'
-)
+    ' Eighth round: a value class without an __eq__ of its own has the generated one (no string branch); grammar rules return category objects, never the text of one (R13.5); no erasure memo in the grammar modules (R13.4).')
 TRUSTED = ['CPython ast', 'semantics of dataclasses (frozen, eq, generated __hash__)', 'rule table DESIGN.md C13']
 
 REL = 'depccg/cat.py'
